@@ -19,6 +19,14 @@ AI == {BNeg(BOne), BNeg(P2(63)), BZero, BOne, BOfInt(1000000), BSub(P2(63), BOne
 AF == {BZero, BOne, BTruncDiv(FOne, BOfInt(3)), FOne, BAdd(FOne, BShr(FOne, 1)), FOfBig(BPow10(6)), FOfBig(P2(40)), FOfBig(P2(30)), BSub(P2(127), BOne)}
 ACum == {BZero, BOne, BPow10(10), BAdd(BPow10(10), BPow10(9)), P2(64), BSub(P2(127), BOne)}
 ADec == {0, 6, 9, 19, 20}
+AI80 == {BNeg(BAdd(P2(79), BOne)), BNeg(P2(79)), BNeg(BOne), BZero, BOne, BSub(P2(79), BOne), P2(79), BSub(P2(80), BOne), P2(80)}
+AU2 == {BZero, BOne, BOfInt(1000000), BSub(P2(64), BOne)}
+\* U68F60 bit patterns: 0, 1 ulp, just below/at 2^12 (the dropped bits), 1.0, 10^6, 2^66, near the top of the 127 bits the harness can pass
+ASF == {BZero, BOne, BSub(P2(12), BOne), P2(12), P2(60), BMul(BPow10(6), P2(60)), P2(126), BSub(P2(127), BOne)}
+ASF2 == {BZero, BOne, BSub(P2(12), BOne), P2(60), BMul(BOfInt(3), P2(59))}
+\* 10^18-scaled decimals (u128; its integer part can never reach the 2^79 limit the function guards against): 0, 1 wei,
+\* just below 1.0, 1.0, 1.5, 10^12 tokens, the largest value the harness can pass
+AWAD == {BZero, BOne, BSub(BPow10(18), BOne), BPow10(18), BMul(BOfInt(15), BPow10(17)), BPow10(30), BSub(P2(127), BOne)}
 
 N(x) == IF x = None THEN [def |-> FALSE] ELSE [def |-> TRUE, v |-> x]
 FMulC(a, b) == IF a = None \/ b = None THEN None ELSE FChk(BShr(BMul(a, b), 48))
@@ -86,6 +94,20 @@ Next ==
           /\ \/ Emit("ty.adj_i64", <<r, ratio>>, ImplAdjI64(r, ratio), <<r2, ratio2>>, ImplAdjI64(r2, ratio2))
              \/ Emit("ty.adj_i128", <<r, ratio>>, ImplAdjI128(r, ratio), <<r2, ratio2>>, ImplAdjI128(r2, ratio2))
      \/ \E r \in AI, ratio \in AF : BIsNeg(r) /\ Emit("ty.adj_i64", <<r, ratio>>, ImplAdjI64(r, ratio), <<>>, None)
+     \* the 80-bit integer range of I80F48 itself, from both sides
+     \/ \E r \in AI80, r2 \in AI80, ratio \in {BOne, FOne, BAdd(FOne, BShr(FOne, 1))} :
+          /\ BLe(r, r2) /\ ~BIsNeg(r)
+          /\ Emit("ty.adj_i128", <<r, ratio>>, ImplAdjI128(r, ratio), <<r2, ratio>>, ImplAdjI128(r2, ratio))
+     \/ \E r \in AI80, ratio \in {BOne, FOne} : BIsNeg(r) /\ Emit("ty.adj_i128", <<r, ratio>>, ImplAdjI128(r, ratio), <<>>, None)
+     \* composition of the reserves' total supply
+     \/ \E x \in ASF : Emit("kamino.sf", <<x>>, BFloorDiv(x, BPow2(12)), <<>>, None)
+     \/ \E av \in AU2, bo \in ASF, pf \in ASF2, rf \in ASF2, pr \in ASF2 :
+          LET a == <<av, bo, pf, rf, pr>> bits == KaminoTotalBits(a) IN
+          Emit("kamino.total", a, IF InI80(bits) THEN bits ELSE None, <<>>, None)
+     \/ \E x \in AWAD : Emit("solend.wad", <<x>>, IF WadDefined(x) THEN WadBits(x) ELSE None, <<>>, None)
+     \/ \E av \in AU2, bo \in AWAD, pf \in AWAD :
+          LET a == <<av, bo, pf>> bits == SolendTotalBits(a) IN
+          Emit("solend.total", a, IF WadDefined(bo) /\ WadDefined(pf) /\ InI80(bits) THEN bits ELSE None, <<>>, None)
      \/ \E r \in AU, ratio \in AF : Emit("ty.adj_u64", <<r, ratio>>, ImplAdjU64(r, ratio), <<>>, None)
      \/ \E p \in AI, liq \in AF, col \in AF : ~BIsNeg(p) /\ Emit("ty.adj_sup_i64", <<p, liq, col>>, ImplAdjSup(p, liq, col), <<>>, None)
      \/ \E c \in AU, av \in AU, sup \in AU, d \in {0, 6, 9, 19, 23} :
